@@ -139,13 +139,22 @@ class Substitutor(SchemaVisitor[GenericSchema]):
 
         # body
         if (len(elements) > 2) and is_ellipsis(elements[0]) and is_ellipsis(elements[-1]):
+            first_result = None
             for index, val in enumerate(value):
                 try:
                     substituted = self._substitute_elements(value, elements[1:-1], index, **kwargs)
                 except SubstitutionError:
                     pass
                 else:
-                    return schema.__class__(schema.props.update(elements=substituted))
+                    # a partial dict substitutes into a window it does not fully match: prefer
+                    # the first window whose result accepts the substituted value itself
+                    res = schema.__class__(schema.props.update(elements=substituted))
+                    if not res.__accept__(Validator(), value=value).has_errors():
+                        return res
+                    if first_result is None:
+                        first_result = res
+            if first_result is not None:
+                return first_result
             raise SubstitutionError(f"Can't substitute {value!r}")
 
         # head
